@@ -185,6 +185,36 @@ def run(run):
                     evs.append(ev)
                     meta.append((cfg, ev))
                     run.case((cname, dname, mname, mode, tuple(fr), tuple(fl)), nontrivial=any(fr) or any(fl))
+            # several frames in one call (a batch of rows, each holding `blocks` codewords) over the ideal channel: every row must come back as
+            # it does alone - rows must not be mixed up when a decoder re-assembles its blocks
+            try:
+                rows_fr = [fr for (mode, frs, _) in cases if mode == "ideal" for fr in frs][:5]
+                if len(rows_fr) >= 2:
+                    fault["mode"] = "ideal"
+                    cap.clear()
+                    for o in (mod, dem, mod2):
+                        if hasattr(o, "reset_state"):
+                            o.reset_state()
+                    Xb = torch.stack([torch.cat([fec.from_int(m, k) for m in fr]) for fr in rows_fr])
+                    ob = model(Xb) if iface == "hard" else model(Xb, noise_var=1.0)
+                    if isinstance(ob, tuple):
+                        ob = ob[0]
+                    ob = ob.reshape(len(rows_fr), blocks, k)
+                    encb = cap["enc"].reshape(len(rows_fr), blocks, n)
+                    demb = cap["dem"].reshape(len(rows_fr), blocks, n)
+                    hb = demb if iface == "hard" else (demb < 0).float()
+                    for r, fr in enumerate(rows_fr):
+                        run.case((cname, dname, mname, "ideal-batched", tuple(fr), r), nontrivial=True)
+                        outs_r = [fec.limbs(fec.to_int(ob[r, j]), k) for j in range(blocks)]
+                        if outs_r != [fec.limbs(m, k) for m in fr]:
+                            tid += 1
+                            ev = {"ev": "Link", "tid": tid, "msgs": [fec.limbs(m, k) for m in fr], "flips": [fec.limbs(0, n)] * blocks,
+                                  "cws": [fec.limbs(fec.to_int(encb[r, j]) ^ zero_cw, n) for j in range(blocks)], "rx": [fec.limbs(fec.to_int(hb[r, j]) ^ zero_cw, n) for j in range(blocks)],
+                                  "outs": outs_r, "nsym": int(cap["mod"].shape[-1]), "bps": bps, "raised": False, "mode": "ideal", "error": "", "call": "batch of %d rows, row %d" % (len(rows_fr), r)}
+                            evs.append(ev)
+                            meta.append((cfg, ev))
+            except Exception:
+                pass            # a link may reject a batch of rows; a wrong answer counts
             for h in hooks:
                 h.remove()
     run.log("%d events" % len(evs))
